@@ -70,6 +70,7 @@ type cfg struct {
 	TransferW     int
 	CompactW      int
 	ConfChange    bool
+	OwnPayloads   bool // the transport declares ReadyMessagePayloadOwner like the production transport
 	FaultBudget   int
 	MaxSteps      int
 }
@@ -277,6 +278,8 @@ type replica struct {
 	sm   *smState
 	gate *gateStore
 	core *smCore
+	// stored: index -> payloads this replica ever wrote to its raft log there
+	stored map[uint64][]string
 }
 
 func (rp *replica) name() string { return fmt.Sprintf("n%d/s%d", rp.node.id, rp.slot) }
@@ -355,6 +358,8 @@ type world struct {
 	finalPending    map[multiraft.SlotID]bool
 	transfers   int
 	compacts    int
+	confChanges int
+	confDone    []confDone // guarded by mu
 	liveRestore int
 
 	leaderChangeAfterAck bool
@@ -450,6 +455,11 @@ func msgKey(from, to int, slot multiraft.SlotID, m raftpb.Message) string {
 	}
 	return b.String()
 }
+
+// OwnsReadyMessagePayloads: like the production transport
+// (pkg/cluster networkSlotTransport) the simulated one encodes every message
+// before Send returns, so multiraft may skip cloning payload bytes. Drawn per run.
+func (t *simTransport) OwnsReadyMessagePayloads() bool { return t.w.cfg.OwnPayloads }
 
 // Send never blocks the network: every envelope is copied through the real
 // protobuf codec and parked as an in-flight message that only the scheduler can
@@ -583,6 +593,17 @@ func (g *gateStore) Save(ctx context.Context, st multiraft.PersistentState) erro
 	}
 	if st.Snapshot != nil {
 		g.checkSnapshotSave(ctx, st)
+	}
+	if len(st.Entries) > 0 {
+		// remember which commands this replica ever stored at which index (used only
+		// to describe a wrong acknowledgement: was the proposer's own entry replaced?)
+		g.w.mu.Lock()
+		for _, e := range st.Entries {
+			if e.Type == raftpb.EntryNormal && len(e.Data) > envelopeSize {
+				g.rep.stored[e.Index] = append(g.rep.stored[e.Index], string(e.Data[envelopeSize:]))
+			}
+		}
+		g.w.mu.Unlock()
 	}
 	return g.inner.Save(ctx, st)
 }
